@@ -115,7 +115,7 @@ impl Prop for C06 {
             // quick tier: multi-swap histories only for one-operation programs
             let s_vm = if tier == Tier::Quick && g.ops.len() > 1 { 1 } else { smax };
             let mut v = vec![(Backend::Vm, SwapMode::InProcess, s_vm)];
-            if idx % wasm_every == 0 {
+            if idx % wasm_every == 0 || g.ops.len() <= 1 {
                 v.push((Backend::Wasm, SwapMode::InProcess, 1));
                 v.push((Backend::Wasm, SwapMode::Subprocess, 1));
             }
@@ -207,7 +207,7 @@ impl Prop for C06 {
         let (t, s, we) = params(tier);
         Descr {
             rule: format!(
-                "for every stateful program of the families {}: all histories of {t} steps with 1..={s} swaps (quick tier: more than one swap only for one-operation programs) to a fresh compilation of the same text at every non-decreasing tuple of split points in 0..={t} (two swaps with no step between included) on the VM (VmDspRuntime::try_hot_swap / Machine::new_resume), and for every {we}-th program all single-swap histories on WASM with both payload variants the CLI prepares (in-process: skeleton known; subprocess: none); each history is executed on the real runtime by re-execution from the initial state and every step's outputs (bitwise) and state words are compared with the uninterrupted run. states = distinct (backend, step, state words); transitions = events executed; non-trivial = program has state words and at least one history ran.",
+                "for every stateful program of the families {}: all histories of {t} steps with 1..={s} swaps (quick tier: more than one swap only for one-operation programs) to a fresh compilation of the same text at every non-decreasing tuple of split points in 0..={t} (two swaps with no step between included) on the VM (VmDspRuntime::try_hot_swap / Machine::new_resume), and for every one-operation program and every {we}-th other program all single-swap histories on WASM with both payload variants the CLI prepares (in-process: skeleton known; subprocess: none); each history is executed on the real runtime by re-execution from the initial state and every step's outputs (bitwise) and state words are compared with the uninterrupted run. states = distinct (backend, step, state words); transitions = events executed; non-trivial = program has state words and at least one history ran.",
                 space(tier).describe()
             ),
             assumptions: vec![
